@@ -87,6 +87,32 @@ CHECKS["C03"] = dict(
     design_ref="DESIGN.md section 3 / C03",
 )
 
+_PF_TEXT = ("Every panic-capable site (MIR Assert terminators for overflow / bounds / division, calls to partial callees such as unwrap, "
+            "index, copy_from_slice, push, extend_from_slice, pow, explicit panics) in every function reachable from the entry points is "
+            "enumerated from the type-checked MIR and must be discharged: (a) forward abstract interpretation over MIR (intervals, lengths of "
+            "arrays / fixed-capacity vectors / slices, Ok-ness of Result/Option values, a>=b facts, field value and field length sets of "
+            "constructor-only fields, iterator trip counts), run once per (hash size, LM-OTS parameter row) partition with all untrusted bytes "
+            "and lengths unknown; (b) capacity- and accumulator-budget idioms (increments x loop trip counts <= capacity); (c) a reviewed "
+            "obligation table whose every dependency (guard facts, table facts, structural facts) is re-checked against the current MIR. "
+            "Termination: no (unbounded) recursion, every CFG loop driven by a finite iterator or a strictly decreasing measure. "
+            "Anything undischarged is reported with the site, operand and call chain.")
+CHECKS["C06"] = dict(
+    category="proof",
+    text=_PF_TEXT + " Entry points: verify, both Verifier::verify impls, Signature::from_bytes, VerifierSignature::{from_ref, from_bytes}, VerifyingKey::from_bytes.",
+    note="Full modulo callee summaries: internals of core/tinyvec/digest/sha2/sha3 are assumed total except the partial functions listed in rules/summaries.py. usize = u64; overflow checks on.",
+    technique="abstract interpretation over MIR (interval + length + variant domains, partitioned) + budget idioms + reviewed obligations with MIR-checked dependencies + loop/recursion analysis",
+    design_ref="DESIGN.md section 3 / C06",
+)
+CHECKS["C11"] = dict(
+    category="proof",
+    text=_PF_TEXT + " Entry points: keygen, sign (sign_mut in fast_verify builds), SigningKey::{from_bytes, get_lifetime, try_sign_with_aux}, SignerMut::try_sign; "
+         "the parameter-list length, the private-key bytes and the aux bytes are unknown. Additionally every fallible step before the update callback has its failure edge "
+         "cut off from the callback, and the tree recursion is bounded by a guarded doubling of the node index.",
+    note="Full modulo callee summaries (as C06). HssParameter::new with the `Reserved` enum variants is outside the property (constructing parameters is not an operation it lists).",
+    technique="abstract interpretation over MIR (interval + length + variant domains, partitioned) + budget idioms + reviewed obligations with MIR-checked dependencies + loop/recursion analysis + dominance",
+    design_ref="DESIGN.md section 3 / C11",
+)
+
 NOT_APPLICABLE = {
     "C01": ("Round-trip completeness (sign then verify succeeds) is equality of two computations over runtime values "
             "(message, seed, counter, 6x4x5^L parameter shapes); no dataflow/typestate fact bounds it. Its structural "
